@@ -118,7 +118,7 @@ func (fr *Frame) execInstr(in ssa.Instruction, st *State, r string) {
 		fr.safetyObl("nil", r, sNot(sEq(p[0], "0")), x.Pos(), "nil pointer dereference (field address)")
 		stt := structOf(x.X.Type())
 		off := fr.l().fieldOffset(stt, x.Field)
-		fr.bindReg(x, []string{p[0], sAdd(p[1], sInt(int64(off)))})
+		fr.bindReg(x, []string{p[0], vc.addSlot(p[1], off)})
 	case *ssa.Field:
 		v := fr.val(x.X)
 		stt := x.X.Type().Underlying().(*types.Struct)
